@@ -614,7 +614,7 @@ def run_schedule(b, on_capture=None):
                    'fresh': len(b.pt.time) == 0, 'pwm_before': b.motor.pwm, 'exc': None, 'dt_q': op['dt'], 'T_q': op['T'],
                    'control': bool(b.control) and op.get('control', True),
                    'stop': bool(b.stop) and op.get('stop', True) and not b.is_probe, 'probe': b.is_probe,
-                   'load_calls0': len(b.load_log)}
+                   'load_calls0': len(b.load_log), 'load': getattr(b, 'cur_load', None)}
             n_expected = int(math.ceil(round(rec['T'] / rec['dt'], 9))) + 1
             b.max_calls = len(b.load_log) + 3 * n_expected + 10
             stop = b.stop if (rec['stop'] or rec['probe']) else None
